@@ -403,6 +403,64 @@ pub fn main(args: &[String]) {
                 rep.distinct += 1;
             }
         }
+        Some("bigpeaks") => {
+            // more distinct peak tuples (each used by two glyphs, so each is a candidate for the shared tuple list) than a
+            // 12-bit shared tuple index can name: every tuple read back must carry the peak and the delta it was given
+            let n: usize = arg_after(args, "--peaks").map(|s| s.parse().unwrap()).unwrap_or(4500);
+            let peaks: Vec<[i16; 2]> = (0..n).map(|i| [1 + i as i16, 16384 - (i as i16 % 7000)]).collect();
+            // a glyph holds at most 4095 tuples: the peaks are spread over groups of 450, each group used by two glyphs
+            const PER: usize = 450;
+            let groups = n.div_ceil(PER);
+            let peaks_of = |g: u32| -> Vec<(usize, [i16; 2])> { let k = (g as usize - 1) % groups; peaks.iter().copied().enumerate().skip(k * PER).take(PER).collect() };
+            let mk = |g: u32| -> GlyphVariations {
+                let vars: Vec<GlyphDeltas> = peaks_of(g).iter().map(|(i, p)| {
+                    let tents = vec![Tent::new(F2Dot14::from_bits(p[0]), None), Tent::new(F2Dot14::from_bits(p[1]), None)];
+                    let d = (*i as i16 % 900) + 1 + g as i16;
+                    GlyphDeltas::new(tents, (0..5).map(|k| if k == 0 { GlyphDelta::required(d, -d) } else { GlyphDelta::required(0, 0) }).collect())
+                }).collect();
+                GlyphVariations::new(GlyphId::new(g), vars)
+            };
+            let nglyphs = 2 * groups as u32;
+            rep.evaluations += 2 * n as u64;
+            let case = json!({"kind": "gvar-bigpeaks", "peaks": n});
+            let built = guarded(|| {
+                let mut all = vec![GlyphVariations::new(GlyphId::new(0), vec![])];
+                all.extend((1..=nglyphs).map(&mk));
+                let gvar = Gvar::new(all, 2).map_err(|e| format!("{e:?}"))?;
+                write_fonts::dump_table(&gvar).map_err(|e| format!("{e}"))
+            });
+            match built {
+                Err(p) => rep.violation(&format!("Gvar builder panicked: {p}"), case),
+                Ok(Err(e)) => rep.violation(&format!("gvar with {n} distinct peaks does not compile: {e}"), case),
+                Ok(Ok(bytes)) => match read_fonts::tables::gvar::Gvar::read(FontData::new(&bytes)) {
+                    Err(e) => rep.violation(&format!("compiled gvar does not parse: {e}"), case),
+                    Ok(gvar) => {
+                        rep.add("shared_tuples_in_big_gvar", gvar.shared_tuple_count() as u64);
+                        let mut wrong = 0u64;
+                        let mut first = None;
+                        for g in 1..=nglyphs {
+                            let Ok(Some(data)) = gvar.glyph_variation_data(GlyphId::new(g)) else {
+                                wrong += 1;
+                                continue;
+                            };
+                            let mut got: Vec<(Vec<i16>, i32)> = data.tuples().map(|t| (t.peak().values.iter().map(|v| v.get().to_bits()).collect(), t.deltas().next().map(|d| d.x_delta).unwrap_or(i32::MIN))).collect();
+                            let mut want: Vec<(Vec<i16>, i32)> = peaks_of(g).iter().map(|(i, p)| (p.to_vec(), (*i as i32 % 900) + 1 + g as i32)).collect();
+                            got.sort();
+                            want.sort();
+                            if got != want {
+                                wrong += got.iter().zip(want.iter()).filter(|(a, b)| a != b).count() as u64 + (got.len() as i64 - want.len() as i64).unsigned_abs();
+                                first.get_or_insert_with(|| json!({"glyph": g, "got": got.iter().zip(want.iter()).find(|(a, b)| a != b).map(|(a, b)| json!([a, b]))}));
+                            }
+                        }
+                        if wrong > 0 {
+                            rep.violation(&format!("{wrong} tuples of a gvar with {n} distinct shared-candidate peaks read back with another peak or delta, first: {}", first.unwrap_or(json!(null))), case);
+                        }
+                        ev.push(json!({"op": "gvar_bigpeaks", "peaks": n, "wrong": wrong, "shared": gvar.shared_tuple_count()}));
+                        rep.distinct += 1;
+                    }
+                },
+            }
+        }
         Some("corpus") => {
             // V on the repository's variable fonts: the serialized tuple data of (a sample of) the glyphs, sliced here from
             // the raw gvar bytes, and the (point, dx, dy) list read-fonts yields for each tuple; GvarTrace!TGvarRead decodes
